@@ -9,9 +9,9 @@ from . import scn as S
 from .drive import Reply, Pending, Ctx
 
 
-def tok(sid, k, attr):
-    """Provenance token: the value of ``attr`` produced by the k-th step of ``sid``."""
-    return f"{sid}.{k}.{attr}"
+def tok(sid, k, attr, eid="E0"):
+    """Provenance token: the value of ``attr`` produced by the k-th step of ``sid`` (for entity ``eid``)."""
+    return f"{sid}.{k}.{attr}" if eid == "E0" else f"{sid}.{k}.{attr}@{eid}"
 
 
 class RandomBehaviour:
@@ -52,10 +52,10 @@ class RandomBehaviour:
             d = {}
             for a in sorted(set(attrs)):
                 if S.is_pers(a):
-                    d[a] = tok(p.sid, p.k, a)
+                    d[a] = tok(p.sid, p.k, a, eid)
                     any_pers = True
                 elif r.random() < self.p_event:
-                    d[a] = tok(p.sid, p.k, a)
+                    d[a] = tok(p.sid, p.k, a, eid)
             data[eid] = d
         if typ != "time-based" and not any_pers and r.random() < self.p_future:
             data["time"] = t + r.choice(self.future)
